@@ -3,7 +3,7 @@ import re
 
 import numpy as np
 
-from .. import sx, gen, lib, meaning as M, monitors, minimise, gateset, refexec
+from .. import sx, gen, lib, meaning as M, monitors, minimise, gateset, refexec, apiroute
 from .common import prog_features, sig, case_prog
 from . import execcommon as X
 
@@ -16,7 +16,7 @@ RULE = ("executable programs over the native gate set with aliases-of-aliases an
 ASSUMPTIONS = ["statement-level queries on busy gates are made through the circuit only",
                "reference used set = syntactic reachability through macros, loops of any count, nested blocks, aliases, lets; busy = all qubits, idle = none"]
 TIERS = {"quick": {"shards": 8, "budget_s": 80}, "thorough": {"shards": 16, "budget_s": 360}}
-REQUIRE = {"macro-bodies-analysed-in-a-second-call-site-scope": 100, "macro-bodies-analysed-in-call-site-scope": 300, "gate-set:Ad": 500, "overlap:ref-yes": 100, "overlap:ref-no": 300, "used-circuit-compared": 500, "used-statement-compared": 500,
+REQUIRE = {"macro-parameters-given-a-kind": 500, "macro-bodies-analysed-in-a-second-call-site-scope": 100, "macro-bodies-analysed-in-call-site-scope": 300, "gate-set:Ad": 500, "overlap:ref-yes": 100, "overlap:ref-no": 300, "used-circuit-compared": 500, "used-statement-compared": 500,
            "permutations-compared": 100, "merge-decisions-observed": 500, "idle-beside-active": 10}
 
 MERGE_LOG = []
@@ -63,9 +63,16 @@ def judge(case):
     P = s.P
     if P.repeated_qubit_gate() is not None:
         return "skipped:gate-on-repeated-qubit", [], None
+    ntyped = 0
+    if case.get("typed"):
+        # macros re-made from core constructors with typed parameters (apiroute.type_macro_parameters)
+        ot = lib.outcome(apiroute.type_macro_parameters, s.c)
+        if ot[0] != "ok":
+            return "inconclusive:cannot-type-macros:%s" % (ot[2],), [], None
+        s.c, ntyped = ot[1]
     regname = s.core.fundamental()[0][1]
     fails = []
-    info = {"merge": 0}
+    info = {"merge": 0, "typed": ntyped}
     del MERGE_LOG[:]
     # (a) circuit-level used set
     o = lib.outcome(lib.used_qubits, s.c)
@@ -206,7 +213,10 @@ def call_site_scopes(s, regname, fails, info):
         ctxd = dict(call.parameters)
         union = {}
         for bs in call.gate_def.body.statements:
-            ob = lib.outcome(lib.used_qubits, bs, ctxd)
+            ob = lib.budgeted(lib.used_qubits, 300000, bs, ctxd)
+            if ob[0] == "budget":
+                fails.append(("used-qubit-analysis-does-not-terminate:macro-body-in-call-site-scope", {"macro": call.name, "steps": ob[1]}))
+                return
             if ob[0] != "ok":
                 fails.append(("used-qubits-raised-on-macro-body-statement:" + ob[1], {"error": ob[2], "macro": call.name}))
                 return
@@ -274,6 +284,7 @@ def process(ctx, case, seen):
     rec.count("used-circuit-compared", info.get("used_circuit", 0))
     rec.count("used-statement-compared", info.get("used_stmt", 0))
     rec.count("macro-bodies-analysed-in-call-site-scope", info.get("used_ctx", 0))
+    rec.count("macro-parameters-given-a-kind", info.get("typed", 0))
     rec.count("macro-bodies-analysed-in-a-second-call-site-scope", info.get("used_ctx_second_site", 0))
     rec.count("merge-decisions-observed", info.get("merge", 0))
     rec.count("merge-decisions-disjoint-mode", info.get("merge_disjoint", 0))
@@ -325,6 +336,8 @@ def shard(ctx):
         case = {"prog": prog, "permseed": rng.randrange(1 << 20)}
         if rng.random() < 0.3:
             case["variant"] = "Ad"  # every gate definition derived by copy() from one that was already used
+        if rng.random() < 0.25:
+            case["typed"] = True
         process(ctx, case, seen)
         if i <= 3:
             rec.sample({"text": sx.to_text(prog)})
